@@ -589,6 +589,17 @@ def flood_order():
     return dict(buses=['A'], ints={'n': [47, 51]}, reals={}, handlers=handlers, main=main, max_history={'A': 10}, horizon=6, rejections_expected=True)
 
 
+def fw_after_refused():
+    """B is filled to within a solver-chosen distance of its admission limit and an event is offered to it directly (accepted or
+    refused, depending on n); once B has drained, the same event object is dispatched to A, which forwards everything to B.  A refused
+    dispatch leaves no trace: B is still reachable through the forward, processes the event once and appears in event_path where it
+    actually arrived."""
+    handlers = [['B', 'C', 'hC', [['sleep', '1/50'], ['ret', 'c']]], ['B', 'P', 'hPB', [['read_bus'], ['ret', 'b']]], ['A', 'P', 'hPA', [['ret', 'a']]]]
+    main = [['burst_swallow', 'B', 'C', 'n', 'C'], ['mkevent', 'P', 'P1'], ['redispatch_swallow', 'B', 'P1'], ['idle', 'B'], ['redispatch', 'A', 'P1'],
+            ['idle', 'A'], ['idle', 'B'], ['idle', 'A'], ['obs_all', 'end']]
+    return dict(buses=['A', 'B'], ints={'n': [48, 52]}, reals={}, handlers=handlers, forwards=[['A', 'B']], main=main, horizon=8, rejections_expected=True)
+
+
 def flood_idle():
     """a burst larger than the queue onto a bus with a small history limit (rejections swallowed), then wait_until_idle()."""
     handlers = [['A', 'C', 'hC', [['ret', 'c']]]]
